@@ -45,9 +45,13 @@ func (p *Prog) ProbeFn(fn *Fn, targets []ast.Node, hooks Hooks) *Probe {
 }
 
 var offsetRe = regexp.MustCompile(`·-?\d+`)
+var assertRe = regexp.MustCompile(`\.\(\*?[\w.]+\)`)
 
-// PlainKey strips the declaration offsets from a fact key.
-func PlainKey(k string) string { return offsetRe.ReplaceAllString(k, "") }
+// PlainKey strips the declaration offsets — and the type assertions that appear when a local such as
+// `node := node.(*IfNode)` is rendered by its definition — from a fact key.
+func PlainKey(k string) string {
+	return assertRe.ReplaceAllString(offsetRe.ReplaceAllString(k, ""), "")
+}
 
 // FactIs reports whether st holds fact `plain` (offset-free key form, e.g. "err == nil",
 // "s.developmentMode", "cacheAfterParsing") with the given truth value.
